@@ -21,6 +21,11 @@ def run(ctx):
     canon.check_derivations(ctx, "C09/D1")
     # what to_writer emits is the canonicaliser's output: it must stay plain (valid) JSON, i.e. not be post-processed
     canon.check_public_canonicalize(ctx, "C09/D1")
+    # ... and its strings and keys must be escaped the way the reader un-escapes them (serde_json's own escaper): a block written in
+    # the compact layout has to be readable back before it can verify
+    canon.check_writer(ctx, "C09/D1", "C09/D1")
+    # the verifier visits every signature of the block once and counts each valid authorised one (positive direction of the round trip)
+    shared.check_threshold_core(ctx, prefix="C04")
     canon.check_codec(ctx, "C09/D3")
     S = Schema(ctx.fx)
     for ty in ("crypto::Signature", "models::metadata::Metablock"):
